@@ -186,3 +186,161 @@ pub fn report_total_errors(stdout: &[u8]) -> Option<u64> {
     }
     None
 }
+
+#[derive(Clone, Debug, PartialEq)]
+pub struct RdhRow {
+    pub off: u64,
+    pub version: u64,
+    pub header_size: u64,
+    pub fee_id: u64,
+    pub system_id: u64,
+    pub offset_next: u64,
+    pub link_id: u64,
+    pub packet_counter: u64,
+    pub bc: u64,
+    pub orbit: u64,
+    pub data_format: u64,
+    pub trigger_type: u64,
+    pub pages_counter: u64,
+    pub stop_bit: u64,
+    pub detector_field: u64,
+}
+
+fn num(s: &str) -> Option<u64> {
+    let s = s.trim();
+    if let Some(h) = s.strip_prefix("0x") {
+        u64::from_str_radix(h, 16).ok()
+    } else {
+        s.parse().ok()
+    }
+}
+
+/// Parse one unstyled `view rdh` row (fixed columns; header lines give None).
+pub fn parse_rdh_row(line: &str) -> Option<RdhRow> {
+    let (pos, rest) = line.split_once(':')?;
+    let off = u64::from_str_radix(pos.trim(), 16).ok()?;
+    let rest = rest.strip_prefix("  ")?;
+    const W: [usize; 13] = [6, 7, 7, 6, 8, 6, 10, 5, 12, 11, 10, 9, 5];
+    let chars: Vec<char> = rest.chars().collect();
+    let mut i = 0;
+    let mut f: Vec<u64> = Vec::new();
+    for w in W {
+        if i + w > chars.len() {
+            return None;
+        }
+        let s: String = chars[i..i + w].iter().collect();
+        f.push(num(&s)?);
+        i += w;
+    }
+    let tail: String = chars[i..].iter().collect();
+    let det = num(tail.trim())?;
+    Some(RdhRow {
+        off,
+        version: f[0],
+        header_size: f[1],
+        fee_id: f[2],
+        system_id: f[3],
+        offset_next: f[4],
+        link_id: f[5],
+        packet_counter: f[6],
+        bc: f[7],
+        orbit: f[8],
+        data_format: f[9],
+        trigger_type: f[10],
+        pages_counter: f[11],
+        stop_bit: f[12],
+        detector_field: det,
+    })
+}
+
+pub fn rdh_rows(stdout: &[u8]) -> Vec<RdhRow> {
+    strip_ansi(&String::from_utf8_lossy(stdout)).lines().filter_map(parse_rdh_row).collect()
+}
+
+#[derive(Clone, Debug, PartialEq)]
+pub enum FrameRow {
+    /// `RDH v<ver> stop=<s> stave: ... #<link> ... <orbit>_<bc>`
+    Rdh { off: u64, text: String },
+    /// A word row: type tag as printed (TDH, TDT, IHW, DDW, CDW, DATA), bytes, rest of the line.
+    Word { off: u64, tag: String, bytes: [u8; 10], rest: String },
+}
+
+fn parse_bytes(s: &str) -> Option<([u8; 10], &str)> {
+    let s = s.trim_start();
+    let s = s.strip_prefix('[')?;
+    let (inner, rest) = s.split_once(']')?;
+    let mut b = [0u8; 10];
+    let mut n = 0;
+    for tok in inner.split_whitespace() {
+        if n >= 10 {
+            return None;
+        }
+        b[n] = u8::from_str_radix(tok, 16).ok()?;
+        n += 1;
+    }
+    if n != 10 {
+        return None;
+    }
+    Some((b, rest))
+}
+
+/// Parse the rows of an ITS readout-frame view (styled or not; ANSI is stripped first).
+pub fn frame_rows(stdout: &[u8]) -> Vec<FrameRow> {
+    let mut v = Vec::new();
+    for line in strip_ansi(&String::from_utf8_lossy(stdout)).lines() {
+        let Some((pos, rest)) = line.split_once(':') else { continue };
+        let Ok(off) = u64::from_str_radix(pos.trim(), 16) else { continue };
+        let rest = rest.strip_prefix(' ').unwrap_or(rest);
+        if rest.starts_with("RDH v") {
+            v.push(FrameRow::Rdh { off, text: rest.trim_end().to_string() });
+            continue;
+        }
+        for tag in ["TDH", "TDT", "IHW", "DDW", "CDW", "DATA"] {
+            if let Some(r) = rest.strip_prefix(tag) {
+                if let Some((bytes, tail)) = parse_bytes(r) {
+                    v.push(FrameRow::Word { off, tag: tag.to_string(), bytes, rest: tail.trim_end().to_string() });
+                }
+                break;
+            }
+        }
+    }
+    v
+}
+
+/// `<offset> Unknown ITS Payload Word ID: 0x.. found in: [..]` error lines of the views.
+pub fn view_unknown_id_errors(stderr: &[u8]) -> Vec<(u64, [u8; 10])> {
+    let mut v = Vec::new();
+    for m in log_messages(stderr) {
+        if m.level != "ERROR" {
+            continue;
+        }
+        if let Some(i) = m.text.find("Unknown ITS Payload Word ID") {
+            let head = m.text[..i].trim().trim_end_matches(':');
+            if let Ok(off) = u64::from_str_radix(head.trim(), 16) {
+                if let Some(j) = m.text.find("found in:") {
+                    if let Some((b, _)) = parse_bytes(&m.text[j + 9..]) {
+                        v.push((off, b));
+                    }
+                }
+            }
+        }
+    }
+    v
+}
+
+/// Integer value of a row of the report table (`Total RDHs`, `Total HBFs`, ...).
+pub fn report_value(stdout: &[u8], name: &str) -> Option<u64> {
+    let s = strip_ansi(&String::from_utf8_lossy(stdout));
+    for line in s.split('\n') {
+        if let Some(pos) = line.find(name) {
+            let rest = &line[pos + name.len()..];
+            let tok: String = rest
+                .chars()
+                .skip_while(|c| !c.is_ascii_digit())
+                .take_while(|c| c.is_ascii_digit())
+                .collect();
+            return tok.parse().ok();
+        }
+    }
+    None
+}
